@@ -381,7 +381,7 @@ def gen(rng, tier, idx):
 
 
 def make_case(pipeline, backend, fam, vocab, cmds):
-    chars = c15.case_chars(cmds)
+    chars = c15.case_chars(cmds, allow_sigma=True)      # generated cases never contain U+03A3; a witness does
     cfg = c15.table_cfg(chars) + [["cfg", "stop"] + [enc(w) for w in c15.stops()],
                                   ["cfg", "pipeline"] + list(pipeline),
                                   ["cfg", "space"] + ["%x" % c for c in SPACES],
@@ -394,13 +394,20 @@ def classify(case, i, impl, model, spec):
     c = case["cmds"][i]
     if c[0] in ("q", "nq") and "İ" in dec(c[2]):
         return "D14"
+    if c[0] in ("q", "nq") and "Σ" in dec(c[2]) and "html" in cfgdict(case)["pipeline"]:
+        return "D17"
     return None
 
 
 def witnesses():
     cmds = [["index", 1, "s", enc("İstanbul is big")], ["index", 2, "s", enc("ankara")],
             ["q", "apply", enc("İstanbul")], ["q", "apply", enc("ankara")]]
-    return [("D14", make_case(PIPELINES["default"], "okapi", "64", "small", cmds))]
+    # D17: HTMLWordSplitter lower-cases the whole chunk before splitting; str.lower() picks the final sigma by
+    # context, so 'ΑΣ' inside 'ΑΣ.Β' becomes 'ασ' but the query 'ΑΣ' becomes 'ας' (the model lower-cases per code
+    # point: Σ -> σ, which is also what "tokenised exactly like indexed text" asks for)
+    cmds17 = [["index", 1, "s", enc("ΑΣ.Β")], ["q", "apply", enc("ΑΣ")], ["q", "apply", enc("β")]]
+    return [("D14", make_case(PIPELINES["default"], "okapi", "64", "small", cmds)),
+            ("D17", make_case(PIPELINES["html"], "okapi", "64", "small", cmds17))]
 
 
 def nontrivial(case, outs):
